@@ -122,7 +122,7 @@ Fixpoint ext_any (P Hg : its) (ps : list N) (acc : list (N * N)) : bool :=
   match ps with
   | [] => true
   | p :: ps' =>
-      existsb (fun h => ok (lbl P) (lbl Hg) (adj P) (adj Hg) node_match edge_match true p h acc
+      existsb (fun h => ok (lbl P) (lbl Hg) (LGraph.adj P) (LGraph.adj Hg) node_match edge_match true p h acc
                         && ext_any P Hg ps' ((p, h) :: acc))
               (node_ids Hg)
   end.
